@@ -26,6 +26,8 @@ import (
 	"errors"
 	"sync"
 	"sync/atomic"
+
+	"github.com/tochemey/goakt/v4/internal/verifhook"
 )
 
 // errNodeAlreadyExists reports that a PID with the same ID is already
@@ -134,6 +136,7 @@ func (x *tree) addRootNode(pid *PID) error {
 // Time Complexity: O(1) (amortized).
 // Space Complexity: O(1) additional (one node plus map entries).
 func (x *tree) addNode(parent, pid *PID) error {
+	verifhook.At("tree.addNode", x, 0, 0)
 	x.mu.Lock()
 	defer x.mu.Unlock()
 	return x.addNodeLocked(parent, pid)
@@ -188,6 +191,7 @@ func (x *tree) addNodeLocked(parent, pid *PID) error {
 	x.pids[id] = childNode
 	x.names[name] = childNode
 	x.counter.Add(1)
+	verifhook.At("tree.mut", x, 1, 0)
 	return nil
 }
 
@@ -224,6 +228,7 @@ func (x *tree) attachNodeLocked(parent, pid *PID) error {
 	parentNode.descendants[childID] = childNode
 	parentNode.watchees[childID] = pid
 	childNode.watchers[parentID] = parent
+	verifhook.At("tree.mut", x, 2, 0)
 	return nil
 }
 
@@ -239,6 +244,7 @@ func (x *tree) addOrAttachNode(parent, pid *PID) error {
 		return nil
 	}
 
+	verifhook.At("tree.addOrAttach", x, 0, 0)
 	x.mu.Lock()
 	defer x.mu.Unlock()
 
@@ -259,6 +265,7 @@ func (x *tree) removeWatcher(watchee, watcher *PID) {
 		return
 	}
 
+	verifhook.At("tree.removeWatcher", x, 0, 0)
 	x.mu.Lock()
 	defer x.mu.Unlock()
 
@@ -273,6 +280,7 @@ func (x *tree) removeWatcher(watchee, watcher *PID) {
 	if watcheeNode, ok := x.pids[watcheeID]; ok {
 		delete(watcheeNode.watchers, watcherID)
 	}
+	verifhook.At("tree.mut", x, 3, 0)
 }
 
 // removeDescendant removes a child from a parent node's descendants map.
@@ -280,11 +288,13 @@ func (x *tree) removeWatcher(watchee, watcher *PID) {
 // Time Complexity: O(1).
 // Space Complexity: O(1).
 func (x *tree) removeDescendant(parentID, childID string) {
+	verifhook.At("tree.removeDescendant", x, 0, 0)
 	x.mu.Lock()
 	defer x.mu.Unlock()
 	if node, ok := x.pids[parentID]; ok {
 		delete(node.descendants, childID)
 	}
+	verifhook.At("tree.mut", x, 4, 0)
 }
 
 // addWatcher registers watcher to watch pid.
@@ -292,6 +302,7 @@ func (x *tree) removeDescendant(parentID, childID string) {
 // Time Complexity: O(1) (amortized).
 // Space Complexity: O(1) additional per watcher relationship.
 func (x *tree) addWatcher(pid, watcher *PID) {
+	verifhook.At("tree.addWatcher", x, 0, 0)
 	x.mu.Lock()
 	defer x.mu.Unlock()
 
@@ -325,6 +336,7 @@ func (x *tree) addWatcher(pid, watcher *PID) {
 
 	pidNode.watchers[watcherID] = watcher
 	watcherNode.watchees[pidID] = pid
+	verifhook.At("tree.mut", x, 5, 0)
 }
 
 // deleteNode removes pid and its entire subtree (all descendants).
@@ -334,6 +346,7 @@ func (x *tree) addWatcher(pid, watcher *PID) {
 // Space Complexity: O(k) for traversal stacks plus O(1) auxiliary.
 // No-ops if pid is nil, NoSender, or unknown.
 func (x *tree) deleteNode(pid *PID) {
+	verifhook.At("tree.deleteNode", x, 0, 0)
 	x.mu.Lock()
 	defer x.mu.Unlock()
 
@@ -411,12 +424,14 @@ func (x *tree) deleteNode(pid *PID) {
 		n.pid.Store(nil)
 		x.counter.Add(-1)
 	}
+	verifhook.At("tree.mut", x, 6, 0)
 }
 
 // node returns the internal pidNode by ID.
 // Time Complexity: O(1) (amortized).
 // Space Complexity: O(1).
 func (x *tree) node(id string) (*pidNode, bool) {
+	verifhook.At("tree.node", x, 0, 0)
 	x.mu.RLock()
 	n, ok := x.pids[id]
 	x.mu.RUnlock()
@@ -430,6 +445,7 @@ func (x *tree) nodeByName(name string) (*pidNode, bool) {
 	if name == "" {
 		return nil, false
 	}
+	verifhook.At("tree.nodeByName", x, 0, 0)
 	x.mu.RLock()
 	node, ok := x.names[name]
 	x.mu.RUnlock()
@@ -440,6 +456,7 @@ func (x *tree) nodeByName(name string) (*pidNode, bool) {
 // Time Complexity: O(n) where n is the number of nodes.
 // Space Complexity: O(n) for the returned slice.
 func (x *tree) nodes() []*pidNode {
+	verifhook.At("tree.nodes", x, 0, 0)
 	x.mu.RLock()
 	defer x.mu.RUnlock()
 	result := make([]*pidNode, 0, len(x.pids))
@@ -489,6 +506,7 @@ func (x *tree) siblings(pid *PID) []*PID {
 // Time Complexity: O(c) where c is the number of direct children.
 // Space Complexity: O(c) for the result slice.
 func (x *tree) children(pid *PID) []*PID {
+	verifhook.At("tree.children", x, 0, 0)
 	x.mu.RLock()
 	defer x.mu.RUnlock()
 
@@ -511,6 +529,7 @@ func (x *tree) children(pid *PID) []*PID {
 			result = append(result, cp)
 		}
 	}
+	verifOrder(x, result)
 	return result
 }
 
@@ -519,6 +538,7 @@ func (x *tree) children(pid *PID) []*PID {
 // Time Complexity: O(k) where k is number of descendants.
 // Space Complexity: O(k) for traversal stack + result slice.
 func (x *tree) descendants(pid *PID) []*PID {
+	verifhook.At("tree.descendants", x, 0, 0)
 	x.mu.RLock()
 	defer x.mu.RUnlock()
 
@@ -604,6 +624,7 @@ func (x *tree) root() (*PID, bool) {
 // Time Complexity: O(1).
 // Space Complexity: O(1).
 func (x *tree) parent(pid *PID) (*PID, bool) {
+	verifhook.At("tree.parent", x, 0, 0)
 	x.mu.RLock()
 	defer x.mu.RUnlock()
 
@@ -634,6 +655,7 @@ func (x *tree) parent(pid *PID) (*PID, bool) {
 // Time Complexity: O(w) where w is the number of watchers.
 // Space Complexity: O(w) for the result slice.
 func (x *tree) watchers(pid *PID) []*PID {
+	verifhook.At("tree.watchers", x, 0, 0)
 	x.mu.RLock()
 	defer x.mu.RUnlock()
 
@@ -655,6 +677,7 @@ func (x *tree) watchers(pid *PID) []*PID {
 	for _, w := range node.watchers {
 		list = append(list, w)
 	}
+	verifOrder(x, list)
 	return list
 }
 
@@ -663,6 +686,7 @@ func (x *tree) watchers(pid *PID) []*PID {
 // Time Complexity: O(w) where w is the number of watchees.
 // Space Complexity: O(w) for the result slice.
 func (x *tree) watchees(pid *PID) []*PID {
+	verifhook.At("tree.watchees", x, 0, 0)
 	x.mu.RLock()
 	defer x.mu.RUnlock()
 
@@ -684,5 +708,6 @@ func (x *tree) watchees(pid *PID) []*PID {
 	for _, w := range node.watchees {
 		list = append(list, w)
 	}
+	verifOrder(x, list)
 	return list
 }
